@@ -121,6 +121,13 @@ def make_form(rng, i):
                     c[h] = hz(rng, f"cl.{ln}.{c['name']}.{lg or 'x'}") + (" " + refs(1)[0] + " z" if rng.random() < 0.15 and targets and top_level(f, targets) else "")
                 elif b not in ("name",) + MEDIA:
                     c[h] = hz(rng, f"cx.{ln}.{c['name']}")
+    for ln, lst in f.choices.items():
+        if len(lst) >= 2 and rng.random() < 0.2:
+            # a choice with a name but nothing to show (pyxform only warns): the choices after it still show their own texts
+            c = lst[rng.randrange(len(lst) - 1)]
+            for h in [h for h in c if split_header(h)[0] in ("label",) + MEDIA]:
+                del c[h]
+            f.meta["unlabeled_choice"] = True
     f.settings["form_title"] = hz(rng, "title")
     f.settings["form_id"] = "f" + str(i)
     if rng.random() < 0.5:
@@ -145,7 +152,7 @@ SMART = hostile.SMART
 
 def container_norm(s, fmt):
     """What the container layer does to a text cell before pyxform's sheet logic sees it."""
-    if fmt == "xlsx":
+    if fmt in ("xlsx", "csv", "xls"):
         s = s.strip().replace("\u00a0", " ")
     return s
 
@@ -547,7 +554,7 @@ def run_shard(ctx):
             continue
         rng = ctx.rng("case", i)
         form = make_form(rng, i)
-        fmt = "xlsx" if i % 6 == 0 else "dict"
+        fmt = {0: "xlsx", 3: "csv", 5: "xls"}.get(i % 6, "dict")
         check(ctx, form, common.feature_sig(form), fmt=fmt, sample=(i < 2))
     repeated_text_forms(ctx)
     ctx.ctr("outval_hook_evals", counters.get("outval", 0))
